@@ -354,12 +354,21 @@ Inductive read_result :=
 | RUnbound                                                       (* [unbound-type-param] / not modelled *)
 | RMissing.
 
-(* x.name  for x an Instance of class c whose instance_type_parameters are [env] (template order) *)
-Definition attr_read (fuel : nat) (tbl : ctable) (c : cid) (env : list (list aval)) (name : N) : read_result :=
+(* x.name  for x an Instance of class c whose instance_type_parameters are [env] (template order).
+   [fixed] selects the variant of attribute._filter_var the tree implements:
+     false  get_instance_type_parameter(val.name)       the SHORT name, looked up in the template of the instance's
+                                                        own class first (the tree before fixes/C06-filter-var-full-name)
+     true   get_instance_type_parameter(val.full_name)  the declaring class's own parameter (after the fix)
+   The harness probes which one the tree implements and runs the cases under that variant. *)
+Definition top_env (fixed : bool) (own_t : list N) (env : list (list aval)) (k : cdecl) (kenv : list (list aval))
+  : list (list aval) :=
+  if fixed then kenv else short_env own_t env k kenv.
+Definition attr_read (fixed : bool) (fuel : nat) (tbl : ctable) (c : cid) (env : list (list aval)) (name : N)
+  : read_result :=
   let ch := chain fuel tbl c env in
   let own_t := match find_class tbl c with Some k => k_template k | None => [] end in
   match find_preload name ch with
-  | Some (k, kenv, d) => RVar (filter_var (dvar_attr (tpi (short_env own_t env k kenv)) (tpi kenv) d))
+  | Some (k, kenv, d) => RVar (filter_var (dvar_attr (tpi (top_env fixed own_t env k kenv)) (tpi kenv) d))
   | None =>
       match find_first name ch with
       | Some (_, kenv, MConst d) => RVar (dvar kenv d)
@@ -392,14 +401,15 @@ Definition method_call (env : list (list aval)) (sigs : list (sig * dty)) (c : c
 
 (* y = x.name            (x: c[ps] a module constant of A) *)
 Definition inst_env (ps : list ty) : list (list aval) := map (conv_var arity) ps.
-Definition read_emitted (fuel : nat) (tbl : ctable) (c : cid) (ps : list ty) (name : N) : tydef * bool :=
-  match attr_read fuel tbl c (inst_env ps) name with
+Definition read_emitted (fixed : bool) (fuel : nat) (tbl : ctable) (c : cid) (ps : list ty) (name : N) : tydef * bool :=
+  match attr_read fixed fuel tbl c (inst_env ps) name with
   | RVar v => emitted (Some v)
   | _ => (DConst TAny, false)
   end.
 (* y = x.name(args) *)
+(* (a bound method comes from the class lookup, which does not depend on the _filter_var variant) *)
 Definition mcall_emitted (fuel : nat) (tbl : ctable) (c : cid) (ps : list ty) (name : N) (cl : call) : tydef * bool :=
-  match attr_read fuel tbl c (inst_env ps) name with
+  match attr_read false fuel tbl c (inst_env ps) name with
   | RBound _ env sigs => emitted (method_call env sigs cl)
   | _ => (DConst TAny, false)
   end.
@@ -439,6 +449,21 @@ Fixpoint tfind_first (name : N) (ch : list (cdecl * list ty)) : option (list ty 
   | [] => None
   | (k, ps) :: ch' => match lookup name (k_members k) with Some m => Some (ps, m) | None => tfind_first name ch' end
   end.
+(* the first PARAMETRIC constant of that name up the chain (the one convert_as_instance_attribute preloads) *)
+Fixpoint tfind_preload (name : N) (ch : list (cdecl * list ty)) : option (list ty * dty) :=
+  match ch with
+  | [] => None
+  | (k, ps) :: ch' =>
+      match lookup name (k_members k) with
+      | Some (MConst d) => if mentions_param d then Some (ps, d) else tfind_preload name ch'
+      | _ => tfind_preload name ch'
+      end
+  end.
+(* every base-class argument is a type parameter of the subclass or a plain class *)
+Definition simple_arg (a : dty) : bool :=
+  match a with DParam _ => true | DGround (TClass _) => true | _ => false end.
+Definition simple_tbl (tbl : ctable) : bool :=
+  forallb (fun k => match k_base k with Some (_, args) => forallb simple_arg args | None => true end) tbl.
 Definition declared_attr (fuel : nat) (tbl : ctable) (c : cid) (ps : list ty) (name : N) : option ty :=
   match tfind_first name (tchain fuel tbl c ps) with
   | Some (kps, MConst d) => Some (subst_ty kps d)
